@@ -56,6 +56,34 @@ MODS_INPUTS = [
     "num 1 2.5 False 7 word TRUE word False",
 ]
 
+# two languages that use the same rule names with another inheritance: what one metamodel knows about "is a Circle a
+# Shape" is nobody else's business
+SHAPES_GRAMMARS = {
+    "shapes1": """
+Model: shapes*=Shape tris*=Tri refs*=Ref;
+Shape: Circle | Square;
+Circle: 'circle' name=ID;
+Square: 'square' name=ID;
+Tri: 'tri' name=ID;
+Ref: 'ref' s=[Shape];
+""",
+    "shapes2": """
+Model: shapes*=Shape circles*=Circle refs*=Ref;
+Shape: Square | Tri;
+Circle: 'circle' name=ID;
+Square: 'square' name=ID;
+Tri: 'tri' name=ID;
+Ref: 'ref' s=[Shape];
+""",
+}
+SHAPES_INPUTS = [
+    "circle c ref c",      # shapes1: fine; shapes2: c is no Shape -> Unknown object
+    "square s ref s",
+    "tri t ref t",         # shapes1: t is no Shape; shapes2: fine
+    "square s circle c tri t ref s",
+    "circle c square c2 ref c2 ref c",
+]
+
 BAD_GRAMMARS = [
     "Model: 'a' x=Undefined;",
     "Model: 'a' x=INT",  # missing ;
@@ -153,6 +181,11 @@ def gen_catalogue(seed):
             cfg["classes"] = []
             cfg["procs"] = t.pick(["none", "record"], "procs")
         cfgs.append(cfg)
+    for name in ("shapes1", "shapes2"):
+        cfgs.append({"template": name, "memoization": False, "autokwd": False, "ignore_case": False,
+                     "auto_init_attributes": True, "textx_tools_support": False, "use_regexp_group": False,
+                     "skipws": True, "ws": None, "global_repository": False, "provider": "default", "classes": [],
+                     "procs": "none"})
     # inputs of the items template: generated single-file worlds, valid and invalid
     items_inputs = []
     seen_names = set()
@@ -228,7 +261,8 @@ def gen_catalogue(seed):
         {"kind": "sp-shared-extra", "path": "/sim/w3sp/proj1/second.m", "text": 'import "extra.m" use u : e'},
         {"kind": "sp-missing", "path": "/sim/w3sp/proj2/missing.m", "text": 'import "nolib.m" use u : x'},
     ]
-    return {"cfgs": cfgs, "items": items_inputs, "mods": mods_inputs, "multi": multi, "multi_sp": multi_sp, "lib": lib}
+    return {"cfgs": cfgs, "items": items_inputs, "mods": mods_inputs, "multi": multi, "multi_sp": multi_sp, "lib": lib,
+            "shapes": [{"kind": "shapes", "text": x} for x in SHAPES_INPUTS]}
 
 
 def build_metamodel(cfg):
@@ -238,6 +272,8 @@ def build_metamodel(cfg):
         kw["ws"] = cfg["ws"]
     if cfg.get("global_repository"):
         kw["global_repository"] = True
+    if cfg["template"] in SHAPES_GRAMMARS:
+        return metamodel_from_str(SHAPES_GRAMMARS[cfg["template"]], **kw)
     if cfg["template"] == "mods":
         mm = metamodel_from_str(MODS_GRAMMAR, **kw)
         if cfg["procs"] == "record":
@@ -301,6 +337,8 @@ def build_metamodel(cfg):
 
 
 def input_list(cat, cfg):
+    if cfg["template"] in SHAPES_GRAMMARS:
+        return cat["shapes"]
     if cfg.get("provider") == "plainuri-sp":
         return cat["multi_sp"]
     if cfg.get("provider") in ("plainuri", "fqnuri"):
